@@ -31,6 +31,8 @@ type Runner struct {
 	encLog   []encRecord
 	typeLine string // the `type …` line of the current universe (for replayable failure details)
 	failSeen map[string]int
+	somRef   [][2]string // reference list of the ordered-map history: (key text, value text) in order
+	somHist  []string
 }
 
 // fail reports an oracle failure, at most 25 times per signature: hx keeps 2000 findings per run and
@@ -126,7 +128,10 @@ func (x *Runner) Exec(op string) string {
 		if len(f) < 3 {
 			return "err"
 		}
+		x.somRef, x.somHist = nil, nil
 		switch f[1] {
+		case "som":
+			x.Env = SomEnv(f[2])
 		case "cat":
 			x.Env = CatalogueEnv(f[2])
 		case "gen":
@@ -155,9 +160,24 @@ func (x *Runner) Exec(op string) string {
 		}
 
 		return "ok nowf"
+	case "som":
+		x.somHist = append(x.somHist, clip(op, 400))
+
+		return x.execSom(op)
 	case "enc", "canon":
 		if x.Env == nil || x.Env.Err != nil || len(f) < 3 {
 			return "bad-op"
+		}
+		if x.Env.SOM != nil {
+			if f[0] != "enc" {
+				return "n/a"
+			}
+			ans := x.somEnc()
+			if x.Prop == "C03" {
+				x.encLog = append(x.encLog, encRecord{def: "def " + x.Env.Schema.SExp(), op: op, impl: ans, universe: x.Env.Name, typeLine: x.typeLine})
+			}
+
+			return ans
 		}
 		val, ok := flagOf(f[1])
 		if !ok {
@@ -196,6 +216,9 @@ func (x *Runner) Exec(op string) string {
 		b, err := unhx(f[2])
 		if err != nil {
 			return "bad-op"
+		}
+		if x.Env.SOM != nil {
+			return x.somDec(b)
 		}
 
 		return x.execDec(b, val)
